@@ -38,6 +38,19 @@ FULLY_SWEPT = [
 ]
 
 
+# envelopes wider than the daemon's own buffers (1 kB of records per channel while the other channel still has records pending, an 8 kB todo
+# read buffer): run once each under the sanitizers, without the fault sweep (added after seeded change C20-L; C03 and C10 judge what
+# comes out of the pre-processing, this part only that nothing is written outside a buffer on the way)
+def _wide(nloc, nrem, first):
+    loc = ["local-recipient-number-%03d@loc.example" % i for i in range(nloc)]
+    rem = ["remote-recipient-number-%03d@rem.example" % i for i in range(nrem)]
+    rc = (rem + loc) if first == "R" else (loc + rem)
+    return hist([{"sender": "s@rem.example", "rcpts": rc, "body": "x\n"}], {"0:0": "ZK", "0:1": "D"}, bscript="K")
+
+
+WIDE = [_wide(60, 10, "R"), _wide(10, 60, "L"), _wide(45, 45, "L"), _wide(300, 2, "R")]
+
+
 def new_logs(base, seen):
     out = []
     for f in sorted(glob.glob(base + ".*")):
@@ -64,6 +77,8 @@ def run_daemon_part(ctx):
     jobs = []
     for i in range(nw):
         jobs.append((tree, i, vlib.subseed(ctx.seed, "c20d", i), ctx.n(4, 120), [dict(sc, _slice=(i, nw)) for sc in FULLY_SWEPT], os.path.join(logdir, "asan-%d" % i)))
+    for i, sc in enumerate(WIDE):
+        jobs[(3 + 4 * i) % nw][4].append(dict(sc, _slice=(0, 10 ** 9)))
     st = vlib.run_workers(worker_sliced, jobs)
     ctx.stats.merge(st)
     ctx.notes["daemon_part"] = "sanitised qmail-send/qmail-clean/qmail-queue: %d fixed histories swept over every single I/O failure + generated histories" % len(FULLY_SWEPT)
